@@ -889,6 +889,8 @@ class Interp:
             yield Opaque('void'), st; return
         if cn == 'memcmp' and len(av) == 3 and all(isinstance(x, Ptr) for x in av[:2]) and isinstance(av[2], Val) and av[2].is_const():
             yield from self.memcmp(e, av[0], av[1], av[2].off, 0, st); return
+        if cn == 'strncmp' and len(av) == 3 and all(isinstance(x, Ptr) for x in av[:2]) and isinstance(av[2], Val) and av[2].is_const():
+            yield from self.memcmp(e, av[0], av[1], av[2].off, 0, st, stop_at_nul=True); return
         if cn == 'memchr' and len(av) == 3 and isinstance(av[0], Ptr) and av[0].base == 'cur' and not isinstance(av[0].off, Val) and isinstance(av[1], Val) and av[1].is_const() and isinstance(av[2], Val):
             yield from self.memchr(e, av[0], av[1], av[2], 0, st); return
         if cn == 'terminate' or cq == 'std::terminate':
@@ -924,8 +926,9 @@ class Interp:
                 if eq: yield Ptr('cur', b.off + i), s2
                 else: yield from self.memchr(e, b, ch, n, i + 1, s2)
 
-    def memcmp(self, e, a, b, n, i, st):
-        """bytes are compared as unsigned char; the sign of the first difference is the result"""
+    def memcmp(self, e, a, b, n, i, st, stop_at_nul=False):
+        """bytes are compared as unsigned char; the sign of the first difference is the result.  stop_at_nul: std::strncmp (ISO C 7.24.4.4) - characters
+        that follow a null character are not compared"""
         if i == n:
             yield Val.const(0), st; return
         xs = []
@@ -937,6 +940,10 @@ class Interp:
             if lt: yield Val.const(-1), s1; continue
             for gt, s2 in self.compare('>', xs[0], xs[1], s1):
                 if gt: yield Val.const(1), s2
+                elif stop_at_nul:
+                    for z, s3 in self.compare('==', xs[0], Val.const(0), s2):
+                        if z: yield Val.const(0), s3
+                        else: yield from self.memcmp(e, a, b, n, i + 1, s3, True)
                 else: yield from self.memcmp(e, a, b, n, i + 1, s2)
 
     def input_call(self, e, cn, av, st):
